@@ -183,7 +183,12 @@ def rule_e(ctx):
     K.check_floors(ctx, "C14")
 
 
+def rule_f(ctx):
+    from . import c03
+    c03.rule_b(ctx)
+
 RULES = [
+    ("C14.f", "every replier connection sends the mapped request once and returns the reply of that replier", rule_f),
     ("C14.a", "BroadcastFuture::poll: index agreement, counter, completion, waker registration", rule_a),
     ("C14.c", "reply order and count", rule_c),
     ("C14.d", "port clones share links (CachedRwLock protocol)", rule_d),
